@@ -544,14 +544,20 @@ class AutoImport:
         if commit:
             self.connection.commit()
 
+    def _is_python_file(self, resource: Resource) -> bool:
+        return self.project.pycore.is_python_file(resource)
+
     def _changed(self, resource):
-        if not resource.is_folder():
+        if self._is_python_file(resource):
             self.update_resource(resource)
 
     def _moved(self, resource: Resource, newresource: Resource):
-        if not resource.is_folder():
+        # only Python files are indexed: a file may become one, or stop
+        # being one, by being renamed
+        if self._is_python_file(resource):
             modname = self._resource_to_module(resource).modname
             self._del_if_exist(modname)
+        if self._is_python_file(newresource):
             self.update_resource(newresource)
 
     def _del_if_exist(self, module_name, commit: bool = True):
@@ -605,7 +611,7 @@ class AutoImport:
         return existing
 
     def _removed(self, resource):
-        if not resource.is_folder():
+        if self._is_python_file(resource):
             modname = self._resource_to_module(resource).modname
             self._del_if_exist(modname)
 
